@@ -1,4 +1,5 @@
-import DadiVerif.Props.C02
+import DadiVerif.Props.C01
 import DadiVerif.Driver.Integ
+import DadiVerif.Props.C02
 import DadiVerif.Props.C03
 import DadiVerif.Props.C04
